@@ -294,6 +294,23 @@ def do(job):
             top = build_example(job["name"])
         elif k == "pdk":
             top = build_pdk(job["pdk"], job["family"])
+        elif k == "flat":          # hierarchy flattening (hdl21.flatten) of an abstract hierarchical design
+            from hdl21.flatten import flatten
+            top = flatten(Builder(job["design"], uniq=job.get("uniq", "")).build())
+        elif k == "builtin":       # the built-in generators, whose bodies walk the unit's ports
+            import hdl21.generators as G
+            g, n = job["gen"], job["n"]
+            if g == "MosStack":
+                top = G.MosStack(nser=n)
+            elif g == "SeriesMos":
+                top = G.Series(unit=h.Mos(nf=2), nser=n, conns=job["pair"])
+            elif g == "SeriesExt":
+                x = h.ExternalModule(name="Cell5", port_list=[h.Port(name=q) for q in ("a", "b", "c", "d", "e")], paramtype=dict)
+                top = G.Series(unit=x(tag=n), nser=n, conns=job["pair"])
+            elif g == "Wrapper":
+                top = G.Wrapper(m=h.Mos(nf=n))
+            else:
+                raise ValueError(g)
         else:
             raise ValueError(k)
     except Exception as e:
